@@ -208,6 +208,10 @@ def check_events(ctx, ev, rule: str, what: str, fi=None, only_funcs=None) -> int
             if e.kind == 'lib' and name in ('numpy.asarray', 'numpy.array', 'numpy.asanyarray', 'numpy.ascontiguousarray', 'numpy.asfarray'):
                 src = borrowed_from(e.data['kw'].get('dtype', e.data['pos'][1] if len(e.data['pos']) > 1 else None))
                 operand = e.data['pos'][0] if e.data['pos'] else (e.data['kw'].get('a') or e.data['kw'].get('object'))
+            elif e.kind == 'lib' and ('lib:' + str(name)) in ALWAYS_FLOAT and borrowed_from(e.data['kw'].get('dtype')) is not None:
+                # a real-valued construction (linspace, mean, ...) forced into a borrowed element type
+                src = borrowed_from(e.data['kw'].get('dtype'))
+                operand = Term('real', (Const(name),))
             elif e.kind == 'method' and name == 'astype':
                 src = borrowed_from(e.data['kw'].get('dtype', e.data['pos'][0] if e.data['pos'] else None))
                 operand = e.data.get('recv')
